@@ -217,10 +217,12 @@ pub struct Workload {
     pub names: Vec<String>,
     pub rejected: u64,
     pub decode_panics: u64,
+    /// names of the messages whose canonical frame the library did not accept (reported in the evidence by name)
+    pub rejected_names: Vec<String>,
 }
 
 pub fn decode_workload(exp: Exp, dir: Dir, frames: &[Value], names: &[String]) -> Workload {
-    let mut w = Workload { msgs: vec![], names: vec![], rejected: 0, decode_panics: 0 };
+    let mut w = Workload { msgs: vec![], names: vec![], rejected: 0, decode_panics: 0, rejected_names: vec![] };
     for (i, f) in frames.iter().enumerate() {
         let bytes = json_to_bytes(f);
         match guarded(|| read_plain(exp, dir, &bytes)) {
@@ -228,7 +230,10 @@ pub fn decode_workload(exp: Exp, dir: Dir, frames: &[Value], names: &[String]) -
                 w.msgs.push(m);
                 w.names.push(names.get(i).cloned().unwrap_or_default());
             }
-            Ok(_) => w.rejected += 1,
+            Ok(_) => {
+                w.rejected += 1;
+                w.rejected_names.push(names.get(i).cloned().unwrap_or_default());
+            }
             Err(_) => w.decode_panics += 1,
         }
     }
@@ -386,6 +391,9 @@ impl Check for C02 {
         o.count("model_frames", frames.len() as u64);
         o.count("model_frames_rejected", wl.rejected);
         o.count("model_frames_decode_panic", wl.decode_panics);
+        for n in &wl.rejected_names {
+            o.count(&format!("model_frame_rejected:{}:{}:{}", exp.name(), dir.name(), n), 1);
+        }
         inject_wardens(&mut wl, exp, dir, sc);
         if sc["kind"] == "sweep" {
             o.count("sweep_runs", 1);
